@@ -204,6 +204,7 @@ class Check:
         return ok and ok_exe and len(self.discharged) == len(self.obligations)
 
     def _print_axioms(self, modules, names, tolerate_missing=False):
+        os.makedirs(self.scratch, exist_ok=True)
         probe = os.path.join(self.scratch, "axioms_probe.lean")
         with open(probe, "w") as f:
             for m in modules:
